@@ -46,6 +46,19 @@ CHECKS = {
         "one physical line and parse back to the identical constants and f-string structure.",
         "Trusts the host parser (3.12, PEP 701) for building input trees; values compared by type and repr.",
         "DESIGN.md section 3, C04"),
+    "C01": (
+        "Hypothesis-generated whole programs (typed scope-aware generator) x 8 configurations; "
+        "differential oracle: CPython executing the source vs eval of the converted expression "
+        "(stdout, canonical user globals, helper-name allowance)",
+        "Programs over the whole supported fragment are drawn by a typed generator that constructs "
+        "exception-free, terminating originals; each is converted under all 8 option combinations "
+        "and evaluated in a fresh namespace; stdout and every user global must agree and only "
+        "__ol_*/itertools/importlib may be added. Failures are shrunk by Hypothesis and a "
+        "statement-level delta debugger. Sampled, not exhaustive; the mechanism-specific sweeps "
+        "(C05-C07, C11-C14) cover the individual lowering tables exhaustively within bounds.",
+        "Trusts CPython as reference and the canonical-value comparison; functions compare as "
+        "'callable' (observed through calls). Host 3.12 only in the quick tier.",
+        "DESIGN.md section 3, C01"),
     "C10": (
         "Hypothesis rule-based state machine over API histories with a dict model of the option "
         "objects; differential oracle against the same call in a fresh process",
